@@ -1,12 +1,15 @@
 import Gallia.Lib.Proto
-import Gallia.Model.Parse
+import Gallia.Model.ParseTransport
 open Gallia Gallia.Proto Gallia.Parse
 
-/-! line protocol: every user string travels as hex of its ASCII bytes (`-` = empty) -/
+/-! line protocol: every user string travels as hex of its UTF-8 bytes (`-` = empty) -/
 
-def strOfHex (h : String) : Option Str := (parseHex h).map fun bs => bs.map fun b => Char.ofNat b.toNat
+def strOfHex (h : String) : Option Str := do
+  let bs ← parseHex h
+  let s ← String.fromUTF8? (ByteArray.mk bs.toArray)
+  pure s.toList
 
-def hexOfStr (s : Str) : String := hexOrDash (s.map fun c => UInt8.ofNat c.toNat)
+def hexOfStr (s : Str) : String := hexOrDash (String.ofList s).toUTF8.toList
 
 def showNats (l : List Nat) : String := if l.isEmpty then "[]" else ",".intercalate (l.map toString)
 
@@ -85,9 +88,22 @@ def showOptB : Option Bool → String
 def showUri (u : Uri) : String :=
   let host := match u.host with | none => "none" | some h => hexOfStr h
   let port := match u.port with | none => "err" | some p => showOptN p
-  s!"{hexOfStr u.scheme} {host} {port} {showArgs u.args}"
+  s!"{hexOfStr u.scheme} {host} {port} {showArgs u.args} {hexOfStr u.path}"
 
 def orErr (o : Option String) : String := o.getD "err"
+
+def showFVal : Option FVal → String
+  | none => "dflt"
+  | some (.int z) => toString z
+  | some (.bool b) => if b then "true" else "false"
+
+def showCfg : Option (List (Str × Option FVal)) → String
+  | none => "err"
+  | some l => if l.isEmpty then "nocfg" else " ".intercalate (l.map fun (k, v) => String.ofList k ++ "=" ++ showFVal v)
+
+def showErr : ConnErr → String
+  | .unknownScheme => "unknown-scheme" | .wrongScheme => "wrong-scheme" | .noHost => "no-host"
+  | .badPort => "bad-port" | .badConfig => "bad-config"
 
 def step (line : String) : String :=
   match words line with
@@ -155,6 +171,58 @@ def step (line : String) : String :=
             s!"ft={showOptI c.frameTxtime} ea={showOptI c.extAddress} ra={showOptI c.rxExtAddress} " ++
             s!"tp={showOptI c.txPadding} rp={showOptI c.rxPadding} dl={showOptI c.txDl}"
         | none => "err")
+  | ["quoteplus", h] => orErr do
+      let s ← strOfHex h
+      pure (hexOfStr (quotePlus s))
+  | ["unquoteplus", h] => orErr do
+      let s ← strOfHex h
+      pure (hexOfStr (unquotePlus s))
+  | ["quoteb", h] => orErr do
+      let bs ← parseHex h
+      pure (hexOfStr (quoteB bs))
+  | ["unquoteb", h] => orErr do
+      let s ← strOfHex h
+      pure (hexOrDash (unquoteB s))
+  | ["utf8dec", h] => orErr do
+      let bs ← parseHex h
+      pure (hexOfStr (utf8Dec bs))
+  | ["utf8", h] => orErr do
+      let s ← strOfHex h
+      pure (hexOrDash (utf8Str s))
+  | ["qsflat", h] => orErr do
+      let s ← strOfHex h
+      pure (showArgs (qsFlat s))
+  | ["toscript", z, h] => orErr do
+      let z ← z.toNat?
+      let s ← strOfHex h
+      pure (hexOfStr (toScript z s))
+  | ["chars", cp] => orErr do
+      let n ← cp.toNat?
+      let c := Char.ofNat n
+      pure s!"{if isSpaceStr c then 1 else 0} {if isWsInt c then 1 else 0} {match uniDigit c with | some d => toString d | none => "-"}"
+  | ["laxint", h] => orErr do
+      let s ← strOfHex h
+      pure (match plainInt s with | some z => s!"some {z}" | none => "none")
+  | ["bool", h] => orErr do
+      let s ← strOfHex h
+      pure (match boolVal s with | some b => (if b then "true" else "false") | none => "none")
+  | ["cfg", sch, args] => orErr do
+      let sch ← strOfHex sch
+      let args ← parseArgs args
+      let t ← transportOf sch
+      pure (showCfg (cfgOf t.fields args))
+  | ["connect", sch, h] => orErr do
+      let sch ← strOfHex sch
+      let s ← strOfHex h
+      let t ← transportOf sch
+      pure (match parseUri s with
+        | none => "err:parse"
+        | some u => match connectPlan t u with
+          | .error e => "err:" ++ showErr e
+          | .ok p =>
+            let host := match p.host with | none => "none" | some x => hexOfStr x
+            let path := match p.path with | none => "none" | some x => hexOfStr x
+            s!"host={host} port={showOptN p.port} path={path} {showCfg (some p.cfg)}")
   | _ => "bad-op"
 
 def main : IO Unit := loopLines step
